@@ -81,7 +81,7 @@ def step (toks : List String) : String :=
       let where_ := if m then "" else s!" left-grammar-at-event-{viablePrefix (grammar u) w}"
       s!"{showBool m} {after} {low}{where_}"
     | _, _ => "bad-input"
-  | ["caps"] => showCaps Generated.caps
+  | "caps" :: _ => showCaps Generated.caps
   | "snap" :: before :: _ => showNats (parseNats before)
   | ["bc", ops] =>
     let ops := if ops == "-" then [] else ops.splitOn ","
